@@ -21,7 +21,7 @@ from typing import Dict, List, Optional, Set, Tuple
 from .relang import DFA, Unsupported
 from .report import Ctx
 from .srcmodel import AnalysisError, FuncNode, call_leaf, call_name, calls_in, const_str, contains, dotted, enclosing_function, get_kwarg, src, walk_local
-from .util import guard_chain, root_name
+from .util import body_raises, guard_chain, root_name
 
 INT = r"-?[0-9]+"
 # exception hierarchy facts (builtins / stdlib)
@@ -117,7 +117,7 @@ def run(ctx: Ctx) -> int:
     bool_if = [n for n in ifs if "isinstance(v, bool)" in ast.unparse(n.test)]
     int_if = [n for n in ifs if "is_integer" in ast.unparse(n.test) and "isinstance(v, float)" in ast.unparse(n.test)]
     for what, lst in (("booleans are rejected", bool_if), ("non-integral floats are rejected for int types", int_if)):
-        ok = len(lst) == 1 and isinstance(lst[0].body[0], ast.Raise) and "ValueError" in ast.unparse(lst[0].body[0]) and gv.dominates(gv.node_ids_of(lst[0]), gv.cn(castv))
+        ok = len(lst) == 1 and body_raises(lst[0].body) is not None and "ValueError" in ast.unparse(body_raises(lst[0].body)) and gv.dominates(gv.node_ids_of(lst[0]), gv.cn(castv))
         ctx.oblige("C20.a", ok, lst[0] if lst else vf, f"{what} before the cast" if ok else f"the check that {what} no longer precedes the cast", fn=vf)
     rz = [r for r in walk_local(vf) if isinstance(r, ast.Raise)]
     ok = len(rz) >= 3 and all(isinstance(r.exc, ast.Call) and call_leaf(r.exc) == "ValueError" for r in rz)
@@ -127,7 +127,7 @@ def run(ctx: Ctx) -> int:
     ok = len(comp) == 1 and isinstance(comp[0].elt, ast.Call) and [root_name(a) for a in comp[0].elt.args] == ["vv", "ref"] and not comp[0].generators[0].ifs
     ctx.oblige("C20.a", ok, comp[0] if comp else vf, "every restriction is evaluated as comparison(cast value, reference)" if ok else "restrictions are skipped or evaluated with swapped operands", fn=vf)
     sf = ctx.func("typing:restricted_string_type.validation_fn")
-    ok = any(isinstance(n, ast.If) and isinstance(n.test, ast.UnaryOp) and "_regex.match(v)" in ast.unparse(n.test) and isinstance(n.body[0], ast.Raise) for n in walk_local(sf))
+    ok = any(isinstance(n, ast.If) and isinstance(n.test, ast.UnaryOp) and "_regex.match(v)" in ast.unparse(n.test) and body_raises(n.body) is not None for n in walk_local(sf))
     ctx.oblige("C20.a", ok, sf, "restricted strings are rejected exactly when the regex does not match" if ok else "restricted string validation changed polarity", fn=sf)
 
     # ---------------- C20.b ---------------------------------------------------
